@@ -91,6 +91,10 @@ def arbitration_oracle(props):
 
 def gen_rules(rng, spec, horizon, n_el):
     """0-4 rules of the four kinds with arbitrary, possibly overlapping windows"""
+    # positions are plain AngularPositions here: the rules multiply the encoder reading by factors of either sign
+    # (e.g. 1 - minimum duty cycle), which an Angle rejects — a restriction of the sub-kind, not of the rules
+    spec['init'].pop('pos_kind', None)
+    spec['init']['pos'] = spec['init']['pos'][:2]
     rules = []
     has_cur = spec['motor']['i0'] is not None
     for _ in range(rng.randint(0, 4)):
